@@ -57,12 +57,19 @@ def binop(op, l, r):
     return {"k": "bin", "op": op, "l": l, "r": r}
 
 
+VOID = {"k": "void"}
+
+
+def prim(t):
+    return {"k": "prim", "t": t}
+
+
 def main_fn(body, exit_code=0):
-    return {"name": "main", "params": [], "ret": "u8", "body": body, "res": lit("u8", [exit_code])}
+    return {"name": "main", "params": [], "ret": prim("u8"), "body": body, "res": lit("u8", [exit_code])}
 
 
-def program(fns, consts=None):
-    return {"consts": consts or [], "fns": fns}
+def program(fns, consts=None, structs=None):
+    return {"structs": structs or [], "consts": consts or [], "fns": fns}
 
 
 def run_programs(programs, layouts, seed, tag):
